@@ -441,7 +441,8 @@ def run(run):  # noqa: F811
             if isinstance(x, tuple) and x and x[0] == "field" and x[2] in ("0", "1") and isinstance(x[1], tuple) and x[1][0] == "field" and str(x[1][2]).endswith("Some.0") and any(is_call(y, "try_to_offset_interval") or (isinstance(y, tuple) and y and y[0] == "closure") for y in S.subterms(x)):
                 subj[fmt(x)] = x
         if len(subj) < 2:
-            raise T.AnchorMissing("start/end of the address offset interval not found in check_def_for_null_dereferences")
+            run.undecided("R7", "null-zone", "start/end of the address offset interval are not tested in check_def_for_null_dereferences itself (the zone test may live in a helper, which this rule does not follow)", site)
+            return
         # maximal boolean subterms about exactly one subject
         conds = [x[1] for x in S.subterms(t) if isinstance(x, tuple) and x and x[0] == "ite"]
         tested = {}
